@@ -42,6 +42,20 @@ func (b *connMailBox) cleanUp() {
 	b.office.remove(b.key)
 }
 
+// discard cleans the box up and closes a side connection that was delivered
+// but never received: the dial failed or was given up meanwhile, so the
+// connection has no owner any more, and the handler that serves it would
+// wait for ever. No delivery can follow the clean up, as the box is no longer
+// in the office.
+func (b *connMailBox) discard() {
+	b.cleanUp()
+	select {
+	case conn := <-b.ch:
+		conn.Close()
+	default:
+	}
+}
+
 // receive waits for the side connection. gone is closed when the endpoint's
 // control connection is gone: no side connection will be delivered any more.
 func (b *connMailBox) receive(
